@@ -255,6 +255,30 @@ m("error-range-swapped", ["C09"], "break", "lexer.go",
   "l.panicfAtPosition(pos, token.Pos(l.pos), \"unclosed comment\")",
   "l.panicfAtPosition(token.Pos(l.pos), pos, \"unclosed comment\")", "Position.Pos > Position.End for an unclosed comment")
 
+
+# ---- C20 ------------------------------------------------------------------------------------
+m("position-endcolumn-from-pos", ["C20"], "break", "token/file.go",
+  "		EndColumn: endColumn,", "		EndColumn: column,")
+m("position-string-column-zero-based", ["C20"], "break", "token/file.go",
+  "pos.FilePath, pos.Line+1, pos.Column+1)", "pos.FilePath, pos.Line+1, pos.Column)")
+m("resolvepos-strict-compare", ["C20"], "break", "token/file.go",
+  "		if linePos <= pos {", "		if linePos < pos {")
+m("linetable-crlf", ["C20"], "break", "token/file.go",
+  "strings.Split(f.Buffer, \"\\n\")", "strings.Split(f.Buffer, \"\\r\\n\")")
+m("linetable-no-newline-byte", ["C20"], "break", "token/file.go",
+  "lines = append(lines, Pos(int(lines[i])+len(line)+1))", "lines = append(lines, Pos(int(lines[i])+len(line)))")
+m("excerpt-keeps-newline", ["C20"], "break", "token/file.go",
+  "		lineBuffer := f.Buffer[f.lines[line] : f.lines[line+1]-1]\n		count := endColumn - column - 1",
+  "		lineBuffer := f.Buffer[f.lines[line]:f.lines[line+1]]\n		count := endColumn - column - 1")
+m("resolvepos-flipped-compare", ["C20"], "keep", "token/file.go",
+  "		if linePos <= pos {", "		if pos >= linePos {")
+m("position-string-locals", ["C20"], "keep", "token/file.go",
+  "	return fmt.Sprintf(\"%s:%d:%d\", pos.FilePath, pos.Line+1, pos.Column+1)",
+  "	line, column := pos.Line+1, pos.Column+1\n	return fmt.Sprintf(\"%s:%d:%d\", pos.FilePath, line, column)")
+m("resolvepos-continue-form", ["C20"], "keep", "token/file.go",
+  "		if linePos <= pos {\n			column = int(pos - linePos)\n			return\n		}",
+  "		if linePos > pos {\n			continue\n		}\n		column = int(pos - linePos)\n		return")
+
 def sh(cmd, cwd=None):
     return subprocess.run(cmd, shell=True, cwd=cwd, capture_output=True, text=True)
 
